@@ -43,6 +43,7 @@ def run(ck: Checker, prog: Program, tier: str):
     ck.guard(_r2, ck, prog)
     ck.guard(_r3, ck, prog)
     ck.guard(_r4, ck, prog)
+    ck.guard(_members_private, ck, prog)
 
 
 def _ex(prog, f, cls, src, self_name="self"):
@@ -290,6 +291,24 @@ def _r2(ck: Checker, prog: Program):
                              f"(the reported peak would no longer be a maximum of the curve)", loc=init.loc())
 
 
+def _members_private(ck: Checker, prog: Program):
+    """An azimuthal result owns its per-azimuth members: peaks, range and masks of a member can only change through this object."""
+    from .common import engine, reachable_nonlocal
+    eng = engine(prog)
+    init = prog.func("hvsr_azimuthal.HvsrAzimuthal.__init__")
+    s = eng.summary(init)
+    ent = s.heap.get((("P", 0, ()), "hvsrs"))
+    if ent is None:
+        raise AnalysisError(f"{init.qualname}: self.hvsrs is not stored")
+    shared = sorted({str(org) for _path, org in reachable_nonlocal(eng, s, ent[0], exclude_fields={"meta"}) if org[0] in ("P", "G")})
+    if not shared:
+        ck.ok("C08.R3", init.qualname, "self.hvsrs holds private copies of the members")
+    else:
+        ck.violation("C08.R3", init.qualname, "members share state",
+                     f"the members of the azimuthal object are (or share storage with) the caller's objects {shared}: a range update through another holder "
+                     f"changes the peaks this object reports while its own range stays the same", loc=init.loc())
+
+
 def _static_hook(prog, mod):
     """Calls of HvsrCurve's static peak helpers, whatever the receiver (self / cls / HvsrCurve): Function(name)(args in parameter order)."""
     hc = prog.cls("HvsrCurve")
@@ -361,6 +380,37 @@ def _update_tables(ck: Checker, prog: Program):
                 ok = val == F("dict")() if none else val in (F("dict")(KW), F("copy")(KW), F("deepcopy")(KW))
                 if not ok:
                     problems.append(f"{state[1]} <- {val} when the argument is {'None' if none else 'given'}")
+        # what the metadata (and hence a saved file) says about the search is the search that was made, held as a private copy
+        mproblems = []
+        for l in working:
+            last = {}
+            for e in l.events:
+                if e[0] == "store":
+                    last[e[1].replace('"', "'")] = e[2]
+            v = last.get("self.meta['search_range_in_hz']")
+            if v not in (SR, F("tuple")(SR), SSR, sp.Tuple(gi(SR, sp.Integer(0)), gi(SR, sp.Integer(1)))):
+                mproblems.append(f"meta['search_range_in_hz'] <- {v}")
+            v = last.get("self.meta['find_peaks_kwargs']")
+            if v is None:
+                mproblems.append("meta['find_peaks_kwargs'] is not recorded")
+                continue
+            for lits, val in flatten_cases(literals(l), v):
+                none = True if any(same_rel(x, kw_none) for x in lits) else False if any(same_rel(x, sp.Ne(KW, NONE, evaluate=False)) for x in lits) else None
+                if none is None:
+                    if val == SKW:
+                        continue
+                    if val == KW:
+                        mproblems.append("meta['find_peaks_kwargs'] <- the caller's own dict (not a copy): the record of the search can change after the search was made")
+                        continue
+                    raise AnalysisError(f"{fq}: meta['find_peaks_kwargs'] <- {val} is stored without deciding whether the argument is None")
+                ok = val in (NONE, F("dict")()) if none else val in (F("dict")(KW), F("copy")(KW), F("deepcopy")(KW), F("dict")(SKW), F("copy")(SKW), F("deepcopy")(SKW))
+                if not ok:
+                    mproblems.append(f"meta['find_peaks_kwargs'] <- {val} when the argument is {'None' if none else 'given'}"
+                                     + (" (the caller's own dict: it can change after the search was made)" if val == KW else ""))
+        if not mproblems:
+            ck.ok("C08.R3", fq, "metadata records the range and a private copy of the find_peaks arguments of the search made")
+        else:
+            ck.violation("C08.R3", fq, "metadata of the search", "; ".join(sorted(set(mproblems))[:3]), loc=m.loc())
         if not problems:
             ck.ok("C08.R3", fq, "stored range/kwargs = the arguments")
         else:
